@@ -31,7 +31,7 @@ def run_patch(patch):
             if subprocess.run(["patch", "-p1", "-s", "-f", "--dry-run", "-i", patch], cwd=tree, capture_output=True).returncode != 0:
                 return None
             subprocess.run(["patch", "-p1", "-s", "-f", "-i", patch], cwd=tree, check=True, capture_output=True)
-        out = subprocess.run([V + "/bin/bxhlint", "-repo", tree, "-verif", vf, "-prop", "all"], capture_output=True, text=True, env=ENV).stdout
+        out = subprocess.run([os.environ.get("BXHLINT", V + "/bin/bxhlint"), "-repo", tree, "-verif", vf, "-prop", "all"], capture_output=True, text=True, env=ENV).stdout
         rep = {}
         for m in re.finditer(r"^(VIOLATED|UNDECIDED): (C\d+) (\S+) \[(.*?)\] ", out, re.M):
             rep.setdefault(m.group(2), set()).add(m.group(3) + ("?" if m.group(1) == "UNDECIDED" else ""))
